@@ -406,6 +406,14 @@ Theorem C02_derive_all_false_1d_repaired : forall (m : list bool) s o, s <> 0 ->
   DeriveGrid1D_all_false_repaired (m, s, o) =
   (map (@centre1_spec ROps (Z.of_nat (length m)) s o) (seqZ (Z.of_nat (length m))), (full1 false (Z.of_nat (length m)), s, o)).
 Proof. exact derive_all_false_1d_repaired_ok. Qed.
+(* ... the sibling constructor Grid1D.uniform_from_zero (hand model in the code's shape, Model/C02x.v: the origin-0 pixel centres minus
+   their minimum, handed to no_mask): entry k is k pixel scales from zero, on the all-false mask with origin 0 *)
+Theorem C02_uniform_from_zero : forall n s k, (0 <= k < n)%Z -> 0 < s ->
+  nth (Z.to_nat k) (fst (@Grid1D_uniform_from_zero ROps n s)) 0 = IZR k * s /\
+  snd (@Grid1D_uniform_from_zero ROps n s) = (full1 false n, s, 0).
+Proof. exact uniform_from_zero_nth. Qed.
+Example C02_uniform_from_zero_nonvacuous : (0 <= 2 < 4)%Z /\ 0 < 1 / 2.
+Proof. split; [split; [discriminate | reflexivity] | lra]. Qed.
 
 (* ---- 13. with property C01's development (slim <-> native): Grid2D.from_mask(mask).native -- C01's native_from applied to the slim values --
    holds the centre of the k-th unmasked pixel AT that pixel and (0, 0) at masked pixels.  C01 indexes pixels by nat pairs (native_for_slim =
@@ -538,3 +546,4 @@ Print Assumptions C02_1d_objects.
 Print Assumptions C02_derive_all_false_1d_refuted.
 Print Assumptions C02_derive_all_false_1d_repaired.
 Print Assumptions C02_from_mask_native.
+Print Assumptions C02_uniform_from_zero.
